@@ -211,4 +211,45 @@ Definition same_printed (a b : value) : option bool :=
     end
   else Some false.
 
+(* the same type and the same value (used by `in` and by switch cases): simple values by their printed
+   form, arrays and hashes member by member - their printed form does not tell a string from the value
+   it spells (`[1, 2]` and `["1, 2"]` print alike; D40) *)
+Fixpoint same_value (a b : value) {struct a} : option bool :=
+  match a, b with
+  | VArray l, VArray l' =>
+      if lenN l =? lenN l' then
+        (fix go (l l' : list value) {struct l} : option bool :=
+           match l, l' with
+           | [], [] => Some true
+           | x :: r, y :: r' => match same_value x y with
+                                | Some true => go r r'
+                                | other => other
+                                end
+           | _, _ => Some false
+           end) l l'
+      else Some false
+  | VHash ps, VHash ps' =>
+      if lenN ps =? lenN ps' then
+        (fix goh (ps : list (value * value)) : option bool :=
+           match ps with
+           | [] => Some true
+           | (k, x) :: r =>
+               match hash_key k with
+               | Some (Some hk) =>
+                   match hash_get ps' hk with
+                   | Some (Some y) => match same_value x y with
+                                      | Some true => goh r
+                                      | other => other
+                                      end
+                   | Some None => Some false
+                   | None => None
+                   end
+               | Some None => Some false
+               | None => None
+               end
+           end) ps
+      else Some false
+  | _, _ => same_printed a b
+  end.
+
 End WithStdlib.
